@@ -98,7 +98,7 @@ class TreeGen:
                 return (1, (6,), *cs)
             if r < 0.7:
                 return (1, (6, n), *cs)
-            return (1, (6, n + rng.randrange(1, 4)), *cs)
+            return (1, (6, n + rng.choice([1, 2, 3, 300, 1000, 70000])), *cs)
         if kind == 'named':
             return (1, (7, rng.randrange(0, 4)), *self._children(n, depth, kinds))
         if kind == 'struct':
@@ -301,8 +301,80 @@ def local_edit(rng, o, struct_arity):
     return _replace(o, path, new)
 
 
+def perm_only(rng, o):
+    """permute the keys (with their children) of every dict-like node, keeping the kinds"""
+    if o[0] == 0:
+        return o
+    h = o[1]
+    cs = [perm_only(rng, c) for c in o[2:]]
+    if h[0] in (3, 4, 5):
+        ks = list(h[1:] if h[0] != 5 else h[2:])
+        perm = list(range(len(ks)))
+        rng.shuffle(perm)
+        ks = [ks[i] for i in perm]
+        cs = [cs[i] for i in perm]
+        h = (h[0], *ks) if h[0] != 5 else (5, h[1], *ks)
+    return (1, h, *cs)
+
+
+def flat_dicts_tree(rng, tg):
+    """a small tree whose dict-like nodes have many keys and only leaf (or equal-shaped) children"""
+    def node(depth):
+        kind = rng.choice([3, 4, 4, 5])
+        n = rng.randrange(2, 6)
+        ks = gen_keys(rng, n, rng.choice(['str', 'int', 'num', 'stage2', 'unsortable']))
+        cs = []
+        for _ in ks:
+            if depth < 2 and rng.random() < 0.25:
+                cs.append(node(depth + 1))
+            elif rng.random() < 0.2:
+                cs.append((1, (1,), tg.leaf(), tg.leaf()))
+            else:
+                cs.append(tg.leaf())
+        return (1, (kind, *ks) if kind != 5 else (5, rng.randrange(0, 5), *ks), *cs)
+    t = node(0)
+    if rng.random() < 0.5:
+        t = (1, (1,), t, tg.leaf())
+    return t
+
+
+def wide_dicts_tree(rng, tg):
+    """dict-like nodes with 3-6 keys whose children have different sizes (sibling re-ordering)"""
+    def sub(depth):
+        r = rng.random()
+        if depth >= 3 or r < 0.3:
+            return tg.leaf()
+        if r < 0.6:
+            return (1, (1,), *[sub(depth + 1) for _ in range(rng.randrange(0, 4))])
+        kind = rng.choice([3, 4, 5])
+        ks = gen_keys(rng, rng.randrange(3, 7), rng.choice(['str', 'int', 'stage2']))
+        cs = [sub(depth + 1) for _ in ks]
+        return (1, (kind, *ks) if kind != 5 else (5, rng.randrange(0, 5), *ks), *cs)
+    kind = rng.choice([3, 4, 5])
+    ks = gen_keys(rng, rng.randrange(3, 7), rng.choice(['str', 'int', 'stage2']))
+    cs = [sub(1) for _ in ks]
+    return (1, (kind, *ks) if kind != 5 else (5, rng.randrange(0, 5), *ks), *cs)
+
+
+def nt_swap(rng, o):
+    """replace the class of one namedtuple node by its sub/superclass twin (cls xor 1), or None"""
+    subs = [(p, x) for p, x in _subtrees(o) if x[0] == 1 and x[1][0] == 7]
+    if not subs:
+        return None
+    path, x = rng.choice(subs)
+    return _replace(o, path, (1, (7, x[1][1] ^ 1), *x[2:]))
+
+
 def gen_pair(rng, tg, struct_arity):
     """(o1, o2, label)"""
+    r0 = rng.random()
+    if r0 < 0.08:
+        o = flat_dicts_tree(rng, tg)
+        return o, perm_only(rng, o), 'permkeys'
+    if r0 < 0.18:
+        o = wide_dicts_tree(rng, tg)
+        p = make_prefix(rng, o, rng.choice([0.0, 0.15, 0.3]))
+        return (perm_only(rng, p) if rng.random() < 0.5 else p), vary_dicts(rng, o), 'widedict'
     o = tg.tree()
     r = rng.random()
     if r < 0.12:
@@ -312,6 +384,9 @@ def gen_pair(rng, tg, struct_arity):
     if r < 0.55:
         return o, vary_dicts(rng, o), 'dictvar'
     if r < 0.72:
+        sw = nt_swap(rng, o) if rng.random() < 0.4 else None
+        if sw is not None:
+            return make_prefix(rng, o, 0.1), sw, 'ntswap'
         return make_prefix(rng, o, 0.2), local_edit(rng, vary_dicts(rng, o) if rng.random() < 0.3 else o, struct_arity), 'nearmiss'
     if r < 0.86:
         # partially overlapping: two different prefixes of the same tree
